@@ -20,6 +20,16 @@ is SKIPPED by code and model alike: the coarse steps are the non-empty intervals
 `coarse_empty_raises` (that part of finding F-19b is repaired; it is not covered by the known finding any more).  An EMPTY
 coarse grid (no pair of cuts holds a reference point) has an empty array of time points of the reference's type, so interval
 data on it gives the empty array (finding F-19e, repaired).
+
+Lost fine steps of a coarse grid are classified against the window's OWN raster (`own_raster`: start + j*freq up to the window
+end, computed from the window alone): inside [first cut, last cut) -> kind `coarse_interval_lost` (statement coarse_partition;
+with no reference point after the last cut: coarse_partition_clipped - stream `cclip`, windows outliving a reference grid whose
+end is off the raster); before the first / at or after the last cut -> kind `coarse_remainder` (known finding F-19b).
+
+Stream `vcar` (`gen_carrier_case`, `carry`): the limits of interval data in every container and time resolution (numpy
+datetime64 [D]..[ns] arrays and scalars, lists of datetime / date / Timestamp / datetime64 / str, DatetimeIndex and Timestamps
+of resolution s/ms/us/ns, object arrays; start and end carried differently).  Model and oracle work on the instants of the case
+(`mk` of the date specs), the containers are built by `carry` with explicit conversions.
 """
 import datetime as dtm
 import json
